@@ -171,7 +171,7 @@ def run(ctx):
     doms = [("qubit",) * n for n in range(width + 1)]
     uni = list(build.expr_universe("circuit", sig, doms, depth, width))
     if ctx.quick:
-        uni = [r for r in uni if len(r[2]) <= 1] + [r for r in uni if len(r[2]) == 2][::3]
+        pass  # complete at this depth in the quick tier
     items += [("circuit", dict(recipe=r)) for r in uni]
     nmax = 4 if ctx.quick else 5
     for e in ("CX", "CZ", "SWAP", "CRz(0.3)", "CRx(-0.7)", "CU1(0.25)", "Controlled(S)"):
